@@ -476,7 +476,9 @@ def jobs(tier, seed):
             ("variant-Server", "id", "tree-variant-id", 6, ["variants", "[Server]", "id"]),
             ("stage2", "mainimage", "relative-path", 5, ["stage2", "mainimage"]),
             ("images-xen", "kernel", "relative-path", 5, ["images", "images", "[xen]", "[kernel]"]),
-            ("images-" + arch, "boot.iso", "relative-path", 5, ["images", "images", "[%s]" % arch, "[boot.iso]"])]:
+            ("images-" + arch, "boot.iso", "relative-path", 5, ["images", "images", "[%s]" % arch, "[boot.iso]"]),
+            # an image name that another platform's section has as well
+            ("images-" + arch, "kernel", "relative-path", 5, ["images", "images", "[%s]" % arch, "[kernel]"])]:
         out.append({"harness": "tree_corrupt_option", "params": {"section": section, "option": option, "rule": rule, "maxlen": maxlen, "getter": getter, "k": k}})
     for section, option, rule, maxlen, getter in [
             ("addon-Server-HA", "type", "tree-variant-type", 10, ["variants", "[Server]", "variants", "[HA]", "type"]),
